@@ -51,4 +51,22 @@ example : Small doc := by
   · exact .seq (by decide) (by intro x hx; simp at hx; rcases hx with rfl | rfl <;> exact .scalar)
   · exact .scalar
   · exact .scalar
+/-! ### reference keys (`jsonpointer.RefKey.FromURL`, `ResolveCtx.Key`) -/
+
+/-- the pointer of the key built for a reference whose fragment is written `frag` (after `#`): since fix d6e2c732
+    the written text (`url.URL.EscapedFragment`), before it the decoded text (`url.URL.Fragment`) -/
+def keyPtr (frag : Bytes) : Bytes := 0x23 :: frag
+def keyPtrOld (frag : Bytes) : Option Bytes := (pctDecode frag).map (0x23 :: ·)
+
+/-- resolving through the key is resolving the fragment as written -/
+theorem refkey_transparent (frag : Bytes) (n : Node) : resolve (keyPtr frag) n = resolve (0x23 :: frag) n := rfl
+
+abbrev docPct : Node := .map [([0x61, 0x41], .scalar 1), ([0x61, 0x25, 0x34, 0x31], .scalar 2)]
+/-- `ext.json#/a%2541` designates member `a%41`; the key as it was built before the fix resolved member `aA`
+    (witness: a different node) -/
+theorem refkey_double_decode_before_fix :
+    resolve (0x23 :: [0x2f, 0x61, 0x25, 0x32, 0x35, 0x34, 0x31]) docPct = .ok (.scalar 2) ∧
+    (keyPtrOld [0x2f, 0x61, 0x25, 0x32, 0x35, 0x34, 0x31]).map (fun p => resolve p docPct) = some (.ok (.scalar 1)) := by
+  constructor <;> rfl
+
 end C16
